@@ -10,7 +10,8 @@ CHECKS = {
    text="For each of the 225 ordered integer type pairs the checker computes, exactly and for all source values, the set accepted by the abort checks of the instantiated "
         "convert_type_fundamental and proves it equals the set of representable values and that the store is the identity; array conversions are checked structurally "
         "(bulk copy only between identical representations). Every obligation is discharged on the repaired tree; the level is reported as 'other' because routing of every "
-        "boundary crossing through this routine is decided by separate structural rules rather than a machine-checked proof.",
+        "boundary crossing through this routine is decided by separate structural rules rather than a machine-checked proof. Those route rules (R-C06-route) demand, for stores into sandbox memory, call arguments, callback arguments and values returned "
+        "to the sandbox, that every narrowing / sign-changing conversion on the value's way was performed by the checked routine (per-path record of which function performed each conversion); R-C06-map fixes the type map by compiler-judged equalities.",
    note="trusted: clang 14 template instantiation + constant evaluation, the LP64 host model, the factdump extractor and the interval evaluator (unit-tested); floating point conversions are by design left to the language", ref="3/C06"),
  "C10": dict(level="other", technique="path-sensitive must-pass-through analysis: every byte sink dominated by non-null + same-sandbox range check on the same start and extent (custom checker over clang AST facts)",
    text="For every instantiation of the nine bulk entry points (memset/memcpy/memcmp, range/string/buffer-address verifiers, unverified_safe_pointer_because, grant/deny) and every structured path, "
@@ -31,7 +32,8 @@ CHECKS = {
  "C13": dict(level="other", technique="ownership typestate rules over the path-sensitive event model (field-complete move, release-before-overwrite, locked duplicate test, non-null refusal)",
    text="Decides the per-operation steps from which the one-owner invariant follows by induction: sandbox_callback is non-copyable with a private registering constructor; move transfers and resets every field of the record; "
         "move assignment, destructor and unregister() release exactly when a registration is held; register_callback tests and inserts one key under one lock after the CREATED check and builds the owner from the backend result; "
-        "unregister_callback swallows when not CREATED and otherwise erases exactly the key found; the bundled backends never return a null entry point. It does NOT explore register/unregister histories (that would be model checking).",
+        "unregister_callback swallows when not CREATED and otherwise erases exactly the key found; the bundled backends never return a null entry point. A path of the move assignment that transfers nothing must have tested object identity; the registered-key set is written only by register/unregister (who-may-write over all instantiated functions, helpers accepted). "
+        "It does NOT explore register/unregister histories (that would be model checking).",
    note="trusted: std::vector/std::find semantics; clang front end; engine. Third-party backends returning representation 0 are outside the refusal rule.", ref="3/C13"),
  "C15": dict(level="other", technique="structural analysis of the token-table scan (freshness control dependence, bounds, cursor update) and ownership typestate of app_pointer",
    text="Decides: token 0 reserved and cursor starting at 1; every returned token is control-dependent on find(token)==end() for the same token, bounded by the limit or the cursor, and the cursor moves past it; no returning fall-through; "
@@ -46,7 +48,7 @@ CHECKS = {
  "C12": dict(level="other", technique="index/identity agreement analysis of the callback dispatch chain over the path-sensitive event model (register slot = trampoline slot = lookup slot; context save/restore)",
    text="Decides every step of the dispatch chain for all instantiated signatures, both bundled backends and both TLS configurations: the interceptor calls exactly the key the backend reports, once, with the executing sandbox "
         "and one-to-one converted arguments (pointers relative to that sandbox) and converts the result back; impl_register_callback stores key and interceptor at the index of the trampoline it returns; trampoline<N> records N and "
-        "calls callbacks[N] of the per-thread sandbox; the lookup reads callback_unique_keys[last_callback_invoked]; unregister clears both arrays at the matching index; impl_invoke installs and restores the per-thread sandbox. "
+        "calls callbacks[N] of the per-thread sandbox; the lookup reads callback_unique_keys[last_callback_invoked]; unregister clears both arrays at the matching index; impl_invoke installs and restores the per-thread sandbox; callback results and arguments cross the ABI only through the checked conversion routine. Run over a generated family of 32 callback signatures. "
         "Dispatch after arbitrary histories/nesting is a state-space property and is not enumerated.",
    note="trusted: clang front end; engine. Value faithfulness per kind is C04/C06/C08.", ref="3/C12"),
  "C14": dict(level="other", technique="typestate/ordering rules over create_sandbox/destroy_sandbox paths plus a who-may-write table for the status word and the live list",
@@ -67,17 +69,18 @@ CHECKS = {
  "C04": dict(level="other", technique="null short-circuit domination, who-may-call table, template-argument/callee agreement and example-address provenance over the path-sensitive event model",
    text="Decides the structural part for every instantiation: the four translation entry points consult the backend only for non-zero inputs and return 0/null otherwise; the backend translations are called from nowhere else; "
         "every pointer instantiation of convert_type_non_class (scalars and arrays, all Direction x Context values) calls the translation its template arguments name, on `from`, into `to`, visiting every array index once; every "
-        "example address is the address of the tainted_volatile cell/object involved; nullptr stores 0; find_sandbox_from_example returns the element whose memory contains the example; bundled backends translate by identity. "
+        "example address is the address of the tainted_volatile cell/object involved; nullptr stores 0; find_sandbox_from_example returns the element whose memory contains the example; the pointer's static type reaches the backend translation unchanged (function vs data pointers); bundled backends translate by identity. "
         "Round-trip arithmetic of third-party backends is their contract.",
    note="trusted: backend contract (translation inverse on in-sandbox addresses); clang front end; engine", ref="3/C04"),
  "C07": dict(level="other", technique="record-layout facts against an independent ABI model + footprint rule on every typed access whose address derives from a sandbox pointer",
    text="Decides: tainted_volatile<T> storage is volatile and has exactly the guest size/alignment for every instantiated T; in every public entry point (inlined) no typed load/store dereferences a raw sandbox pointer with an application "
-        "type whose size differs under the sandbox ABI (all accesses go through guest-typed storage); get_raw_value/operator= touch only their own storage. Decided under the foreign-ABI model where widths differ.",
+        "type whose size differs under the sandbox ABI (all accesses go through guest-typed storage); get_raw_value/operator= touch only their own storage; bulk loads range-check exactly the bytes they decode (R-C07-range, shared with C10). Decided under the foreign-ABI model where widths differ.",
    note="trusted: the compiler emits sizeof(type) bytes for a typed volatile access; ABI model in sa/abi.py", ref="3/C07"),
  "C08": dict(level="other", technique="record-layout facts against an independent ABI calculator + field-routing analysis of the six generated converters",
    text="For every registered struct and backend: guest struct and tainted_volatile<S> have the size, alignment and field offsets the checker's own calculator derives from S's field list; tainted<S> has S's host layout; in each "
-        "generated converter every leaf field (nested structs expanded, arrays per index) is written exactly once from the same-named field of the single source object on every path. Field values are C04/C06.",
-   note="struct family in this revision: the driver's registered structs (all scalar kinds, pointers, function pointer, char/long/pointer arrays, nested struct); natural alignment", ref="3/C08"),
+        "generated converter every leaf field (nested structs expanded, arrays per index) is written exactly once from the same-named field of the single source object on every path; pointer fields are translated relative to the sandbox-memory image (R-C08-pointers), array fields element-wise over every "
+        "dimension (R-C08-arrays), integer fields accept exactly the representable values (R-C08-values) - the last three share their analyses with C04/C06. Run over a generated family of registered structs covering every field kind.",
+   note="struct family: 3 hand-written + 10 (quick) / 48 (thorough) generated structs (tools/gen_structs.py), every field kind of the quantifier with a floor on the set of kinds analysed; natural alignment; value enumeration per field is replaced by the exact accepted-set computation", ref="3/C08"),
  "C09": dict(level="other", technique="snapshot/single-fetch shape analysis: classification of the verifier's argument and counting of sandbox reads per path",
    text="For every copy_and_verify variant and element type: the verifier is called once with a by-value scalar or a local application-memory object; no sandbox read follows; scalar variants fetch the cell once; "
         "range/string variants use one length value for range check, allocation, loop bound, terminator and string constructor with at most one strlen; the char buffer is force-terminated. "
@@ -89,7 +92,8 @@ CHECKS = {
    note="trusted base listed in evidence: clang constant evaluation/implicit conversions, interval evaluator (exact for this expression class; anything else is INCONCLUSIVE), std::array semantics", ref="3/C17"),
  "C20": dict(level="other", technique="record-layout/triviality facts + bitwise-copy and cast-kind analysis of the opaque conversions and sandbox casts",
    text="Decides: tainted_opaque<T> is a single T, layout-identical to tainted<T>, both trivially copyable/destructible; to_opaque/from_opaque return a bitwise copy typed as the sibling with identical T and sandbox type; "
-        "each sandbox_X_cast performs exactly one conversion of the kind X_cast permits (clang cast kind, not spelling) on the argument's value and wraps it as tainted<T_Lhs,T_Sbx>.",
+        "each sandbox_X_cast performs exactly one conversion of the kind X_cast permits (clang cast kind, not spelling) on the argument's value and wraps it as tainted<T_Lhs,T_Sbx>; integer sandbox_static_cast is judged by value "
+        "over a 10x10 type matrix (a chain of conversions must equal the single static_cast for every source value).",
    note="bit patterns are not enumerated: a bitwise copy between layout-identical trivially-copyable types preserves every value", ref="3/C20"),
  "C01": dict(level="exploration", technique="compiler-judged witness corpus (accept/reject + result-type oracle) exhaustive over a generated expression/statement grammar, plus a public-surface who-may-return table",
    text="Every program of a generated grammar (wrapper kind x type x every binary operator with wrapped/plain/nullptr operands on either side, unary/postfix operators, [], ->, comma, ?:, casts, and all conversion contexts) is compiled "
@@ -97,7 +101,7 @@ CHECKS = {
         "contexts must be rejected. The run is exhaustive over the grammar (3.7k programs quick, ~20k thorough with g++ as second judge). A who-may-return table over all instantiated wrapper members pins the named unwrappers.",
    note="programs outside the grammar are not covered; trusted: clang 14 (and g++ 12 in the thorough tier) as judges", ref="3/C01"),
  "C02": dict(level="exploration", technique="compiler-judged must-reject/must-accept corpus over entry shapes + dominating-check analysis of the two run-time checked entry points",
-   text="Every shape of the statement (raw pointers, raw function pointers, pointer arrays, foreign-sandbox wrappers into tainted/tainted_volatile/call arguments/callback results; malformed callback signatures; function-pointer type agreement) "
+   text="Every shape of the statement (raw pointers, raw function pointers, C and std::array pointer arrays under the foreign and the host ABI, foreign-sandbox wrappers into tainted/tainted_volatile/call arguments/callback results; malformed callback signatures; function-pointer type agreement) "
         "is compiled and must be rejected, with must-accept controls for each well-formed shape; assign_raw_pointer (both forms) and UNSAFE_accept_pointer are shown to store only a value dominated by the membership abort check of the same value on the same sandbox.",
    note="trusted: clang 14 as judge; backend membership predicate exact", ref="3/C02"),
  "C03": dict(level="other", technique="inductive producer discipline: every site that creates a tainted object pointer is classified by a justification idiom over the path-sensitive event model",
